@@ -435,6 +435,46 @@ def directed_histories(ck):
                                 case={'mut': mut, 'scipy': scipy_on}, expected={k_: repr(b_[k_]) for k_ in bad_[:5]}, observed={k_: repr(a_[k_]) for k_ in bad_[:5]}, driver='directed')
         finally:
             sppath._quad_available = old
+    # (1b) every in-place operation of the Path API that is not a list method (approximate_arcs_with_cubics / _quads), and paths in which one segment *object*
+    #      occurs twice (a setter that moves "the first start" then moves an interior joint too): after any query, the path answers like a freshly built one
+    def arc_path():
+        return sp.Path(sp.Line(0j, 4 + 0j), sp.Arc(4 + 0j, 3 + 2j, 20, False, True, 8 + 3j), sp.CubicBezier(8 + 3j, 9 + 6j, 5 + 7j, 4 + 5j), sp.Arc(4 + 5j, 2 + 2j, 0, True, False, 0j))
+    for opname in ('approximate_arcs_with_cubics', 'approximate_arcs_with_quads'):
+        for order in (0, 1, 2, 3):
+            for first in ('all queries', 'length only', 'nothing'):
+                p = arc_path()
+                if not hasattr(p, opname):
+                    continue
+                if first == 'all queries':
+                    snapshot(p, order, True)
+                elif first == 'length only':
+                    p.length()
+                try:
+                    getattr(p, opname)()
+                except Exception as e:      # noqa
+                    ck.disagree(key='Path.%s/raises' % opname, site='svgpathtools/path.py:Path.' + opname, what='%s() raised %r' % (opname, e), case={'op': opname}, expected='None', observed=repr(e), driver='directed')
+                    continue
+                ck.case(fp=('directed', opname, order, first), nontrivial=True)
+                fresh = sp.Path(*[type(s_)(*s_.bpoints()) if not isinstance(s_, sp.Arc) else sp.Arc(s_.start, s_.radius, s_.rotation, s_.large_arc, s_.sweep, s_.end) for s_ in p])
+                b_, a_ = snapshot(fresh, order, True), snapshot(p, order, True)
+                bad_ = [k_ for k_ in a_ if not close(a_[k_], b_[k_])]
+                if bad_:
+                    ck.disagree(key='Path.%s/stale-answers-afterwards' % opname, site='svgpathtools/path.py:Path.' + opname, what='%s; %s(); then %s differ from a freshly built Path of the same segments' % (first, opname, bad_[:5]),
+                                case={'op': opname, 'first': first, 'order': order}, expected={k_: repr(b_[k_]) for k_ in bad_[:5]}, observed={k_: repr(a_[k_]) for k_ in bad_[:5]}, driver='directed')
+    for setter, val in (('start', -3 + 1j), ('end', 7 + 7j)):
+        for order in (0, 1, 2):
+            a_seg, b_seg, c_seg = sp.Line(0j, 2 + 0j), sp.Line(2 + 0j, 0j), sp.Line(2 + 0j, 5 + 4j)
+            p = sp.Path(a_seg, b_seg, a_seg, c_seg) if setter == 'start' else sp.Path(c_seg.reversed(), a_seg, b_seg, a_seg)
+            snapshot(p, order, True)
+            p.iscontinuous(), p.continuous_subpaths()
+            setattr(p, setter, val)
+            ck.case(fp=('directed', 'shared-segment-object', setter, order), nontrivial=True)
+            fresh = sp.Path(*[sp.Line(s_.start, s_.end) for s_ in p])
+            b_, a_ = snapshot(fresh, order, True), snapshot(p, order, True)
+            bad_ = [k_ for k_ in a_ if not close(a_[k_], b_[k_])]
+            if bad_:
+                ck.disagree(key='Path.%s=/segment-object-occurring-twice' % setter, site='svgpathtools/path.py:Path.%s setter' % setter, what='a path holding one Line object twice, queried; path.%s = %r; then %s differ from a freshly built Path of the same segments' % (setter, val, bad_[:5]),
+                            case={'setter': setter, 'order': order}, expected={k_: repr(b_[k_]) for k_ in bad_[:5]}, observed={k_: repr(a_[k_]) for k_ in bad_[:5]}, driver='directed')
     opts = [dict(useSandT=u, use_closed_attrib=z, rel=r) for u, z, r in itertools.product((False, True), repeat=3)]
     for text in ('M0,0 L1,0 L1,1 Z', 'M0,0 L4,0 C4,2 2,3 0,0 Z', 'M0,0 L1,0 L1,1 Z M5,5 L6,6', 'M1,1 Q3,4 5,1 L1,1 z'):
         for mut in ('pop', 'del[-1]', 'del[1:]', 'setitem', 'insert', 'append', 'end=', 'start=', 'reverse', 'none'):
